@@ -126,11 +126,12 @@ Singular(c, b) == \E d \in EndDets1(c, b) : d \in EndDets2(c, b)
 \* Known finding C12-tangedge: at the first/last tangential position an in-plane tie may be resolved
 \* towards the neighbouring detector pair one step OUTSIDE the tangential range
 \* (or, from the last view, towards the pair of the first view, whose tangential position has the opposite
-\* sign - outside an ASYMMETRIC range, which only arises by narrowing the range of an existing object)
+\* sign and whose segment is the opposite one - outside an ASYMMETRIC tangential or segment range, which only
+\* arises by narrowing the ranges of an existing object)
 TangEdge(c, b) == /\ TieInPlane(c, b)
                   /\ \/ b.tang = c.maxTang /\ c.maxTang + 1 <= NV(c) - 1
                      \/ b.tang = c.minTang /\ c.minTang - 1 >= -(NV(c)) + 1
-                     \/ c.mash = 1 /\ b.view = NV(c) - 1 /\ (-b.tang < c.minTang \/ -b.tang > c.maxTang)
+                     \/ c.mash = 1 /\ b.view = NV(c) - 1 /\ (-b.tang < c.minTang \/ -b.tang > c.maxTang \/ -b.seg \notin Segs(c))
 \* idealised get_bin of detector-based data: nearest detectors/rings, then the C01 pair->bin map.
 \* Outcomes: a bin, or "miss" (NoBin)
 RTOutcomes(c, b, ipT) ==
@@ -204,5 +205,5 @@ C6(N) ==
        /\ StdLine(N, Line(p, N - be, zb, za)) = s
 
 \* configurations outside the quantifier / in a known-inconsistent class (C01-truncseg)
-InScope(c) == LegalConfig(c) /\ ~TruncSingleRD(c)
+InScope(c) == LegalConfigA(c) /\ ~TruncSingleRD(c)
 =============================================================================
